@@ -62,6 +62,9 @@ def make_index(ctx, d, kind, labels, lkind, qkind=None):
     if kind == 'mask':
         bits = [bool(ctx.bool('m%s_%d' % (d, j))) for j in range(n)]
         return ctx.nparray(bits, kind='b'), [j for j, b in enumerate(bits) if b]
+    if kind in ('masklist', 'masktuple'):      # the mask written as a plain Python list / tuple of bools
+        bits = [bool(ctx.bool('m%s_%d' % (d, j))) for j in range(n)]
+        return (list(bits) if kind == 'masklist' else tuple(bits)), [j for j, b in enumerate(bits) if b]
     if kind == 'maskaxis':         # mask computed from the axis itself: a.x > t
         t = ctx.label(lkind, 't%s' % d)
         return ('gt', t), [j for j, l in enumerate(labels) if l > t]
@@ -370,6 +373,11 @@ def templates():
                 if kind == 'list3' and n == 3 and lk == 'i':
                     tier = 'quick'
                 add('1d-%s-n%d-%s' % (lk, n, kind), 'index_nd', tier, cost, shape=[n], lkinds=[lk], kinds=[kind])
+    # masks written as plain Python lists of bools, on axes that carry the labels 0 and 1 among others (symbolic)
+    for n in (2, 3):
+        add('1d-masklist-n%d' % n, 'index_nd', cost=1, shape=[n], lkinds=['i'], kinds=['masklist'])
+    add('2d-masklist', 'index_nd', cost=2, shape=[2, 3], lkinds=['i', 'i'], kinds=['scalar', 'masklist'])
+    add('2d-masklist-take', 'index_nd', cost=2, shape=[3, 2], lkinds=['i', 'U'], kinds=['masklist', 'full'], via='takeaxisname')
     # same lookups on arrays whose axes have answered is_monotonic() before (cached state must not matter)
     for lk in 'ifU':
         for kind in ('scalar', 'list1', 'list2', 'mask'):
